@@ -17,6 +17,9 @@ import os
 from .canon import canon, canon_text
 
 
+NAME_MAX = 255
+
+
 class UserError(Exception):
     """Raised by generated user code (``raise`` statement)."""
 
@@ -336,6 +339,10 @@ class ModelBuilder:
         if v.is_file(d):
             setup_fail(NotADirectoryError(d))
         to_make.reverse()
+        for d in to_make:
+            if len(os.path.basename(d).encode()) > NAME_MAX:
+                # mkdir fails (ENAMETOOLONG): per C10 nothing this call created may remain
+                setup_fail(OSError(36, 'File name too long', d))
         for d in to_make:
             v.t[d] = ('d',)
             mb.created.add(d)
